@@ -1515,7 +1515,7 @@ impl UntypedExpr {
                         if ret_ty != expr.ty {
                             if let Type::Unsigned(_) | Type::Signed(_) = ret_ty {
                                 // reaches the literals inside the block of the clause
-                                constrain_type(expr, &ret_ty)?;
+                                check_type(expr, &ret_ty)?;
                             } else {
                                 let e = TypeErrorEnum::UnexpectedType {
                                     expected: ret_ty.clone(),
